@@ -1,6 +1,7 @@
 package s3db
 
 import (
+	"bytes"
 	"context"
 	"errors"
 	"fmt"
@@ -595,6 +596,13 @@ func (c *VirtualTable) Update(ctx context.Context, key interface{}, values map[i
 	if key == nil {
 		return errors.New("no key set")
 	}
+	if nk, assigned := values[c.KeyCol]; assigned && !sameKeyValue(nk, key) {
+		// The caller decides between "same row" and "row moves to another
+		// key" by comparing the new key converted to the old key's type
+		// (1 -> '1', 1 -> 1.5, 1 -> 4294967297 all look unchanged to it):
+		// the statement reported success and the new key was dropped.
+		return errors.New("changing the primary key of a row is not supported")
+	}
 	t := updateTime(ctx)
 	var old *v1proto.Row
 	var new v1proto.Row
@@ -990,6 +998,26 @@ func Vacuum(ctx context.Context, tableName string, beforeTime time.Time) error {
 	}
 
 	return nil
+}
+
+// sameKeyValue reports whether two key values are the same value of the same
+// storage class, bit for bit.
+func sameKeyValue(a, b interface{}) bool {
+	switch x := a.(type) {
+	case int64:
+		y, ok := b.(int64)
+		return ok && x == y
+	case float64:
+		y, ok := b.(float64)
+		return ok && math.Float64bits(x) == math.Float64bits(y)
+	case string:
+		y, ok := b.(string)
+		return ok && x == y
+	case []byte:
+		y, ok := b.([]byte)
+		return ok && bytes.Equal(x, y)
+	}
+	return false
 }
 
 func updateTime(ctx context.Context) time.Time {
